@@ -80,7 +80,7 @@ func init() {
 	}
 }
 
-const nHandSets = 17
+const nHandSets = 19
 
 func lookupJobs(h string, nsets, maxLh, maxLp int) []*Job {
 	var js []*Job
@@ -118,12 +118,12 @@ func init() {
 		ID: "C08",
 		Jobs: func(tier string) []*Job {
 			var js []*Job
-			dsets := []int{7, 8, 9, 17, 21, 24}
+			dsets := []int{7, 8, 9, 15, 18}
 			dlp, dlq := 4, 1
 			isets, ilp := nHandSets+13, 5
 			if tier == "thorough" {
 				js = lookupJobs("C08Tsr", nHandSets+187, 4, 8)
-				dsets = []int{0, 6, 7, 8, 9, 17, 19, 21, 24, 28, 30, 33}
+				dsets = []int{0, 6, 7, 8, 9, 13, 15, 17, 18, 22, 25, 27}
 				dlp, dlq = 5, 2
 				isets, ilp = nHandSets+43, 6
 			} else {
@@ -161,7 +161,7 @@ func init() {
 			if tier == "thorough" {
 				return "C08(a-c): 204 corpus route sets x every Host of 0..4 bytes x every path of 2..8 bytes (full byte alphabet, no empty segment), method GET; (d,e): 12 sets registered under GET/POST/CONNECT x 5 trailing-slash configurations (all ignore, all redirect, none, mixed per route, router-wide redirect with per-route ignore) x every path of 2..5 bytes x every printable raw query of 0..2 bytes, Location resolved by an RFC 3986 reference resolver; (f): 63 sets x 9 extra routes x every path of 2..6 bytes (Host 0 and 2 bytes)"
 			}
-			return "C08(a-c): 64 corpus route sets x every Host of 0..3 bytes x every path of 2..7 bytes (full byte alphabet, no empty segment), method GET; (d,e): 6 sets registered under GET/POST/CONNECT x 5 trailing-slash configurations x every path of 2..3 bytes (2..4 without redirect, and on one set with it) x every printable raw query of 0..1 bytes, Location resolved by an RFC 3986 reference resolver; (f): 33 sets x 9 extra routes x every path of 2..5 bytes (Host 0 and 2 bytes)"
+			return "C08(a-c): 64 corpus route sets x every Host of 0..3 bytes x every path of 2..7 bytes (full byte alphabet, no empty segment), method GET; (d,e): 5 sets registered under GET/POST/CONNECT x 5 trailing-slash configurations x every path of 2..3 bytes (2..4 without redirect, and on one set with it) x every printable raw query of 0..1 bytes, Location resolved by an RFC 3986 reference resolver; (f): 33 sets x 9 extra routes x every path of 2..5 bytes (Host 0 and 2 bytes)"
 		},
 		RequiredCovers: []string{"tsr expected", "no route even after slash adjustment", "tsr expected under a matching host", "tsr ignored: served", "tsr redirected", "tsr but CONNECT: unmatched", "tsr neither ignored nor redirected: unmatched", "irrelevant route compared"},
 	}
@@ -218,9 +218,15 @@ func init() {
 func c02Jobs(tier string) []*Job {
 	var js []*Job
 	add := func(set, k, methods, symlen, pool int) {
-		js = append(js, &Job{Harness: "C02History", Params: map[string]int{"set": set, "k": k, "methods": methods, "symlen": symlen, "pool": pool}})
+		if !(tier != "thorough" && k >= 2 && symlen == 0 && set > 0) {
+			js = append(js, &Job{Harness: "C02History", Params: map[string]int{"set": set, "k": k, "methods": methods, "symlen": symlen, "pool": pool, "iter": 1}})
+		}
+		if k >= 2 && symlen == 0 {
+			// the same histories without an iterator on the open transaction between the steps
+			js = append(js, &Job{Harness: "C02History", Params: map[string]int{"set": set, "k": k, "methods": methods, "symlen": symlen, "pool": pool, "iter": 0}})
+		}
 	}
-	starts := []int{-1, 0, 6, 11, 16}
+	starts := []int{-1, 0, 6, 11, 16, 17}
 	if tier == "thorough" {
 		starts = []int{-1, 0, 1, 2, 4, 6, 9, 10, 11, 12, 14, 16, 17, 18, 19, 20}
 	}
@@ -239,17 +245,25 @@ func c02Jobs(tier string) []*Job {
 		} else if s == 16 {
 			// 60-sibling fan-out: one write only (observations are quadratic in the number of routes)
 			add(s, 1, 2, 0, 12)
-			add(s, 1, 2, 2, 12)
+			add(s, 1, 2, 1, 12)
 		} else {
-			add(s, 2, 2, 0, 8)
-			for n := 1; n <= 4; n++ {
+			pl := 8
+			if s == 6 || s == 11 {
+				pl = 6
+			}
+			add(s, 2, 2, 0, pl)
+			maxn := 3
+			if s <= 0 {
+				maxn = 4
+			}
+			for n := 1; n <= maxn; n++ {
 				add(s, 1, 2, n, 12)
 			}
 		}
 	}
 	if tier != "thorough" {
 		add(-1, 2, 2, 2, 8)
-		add(0, 2, 2, 2, 6)
+		add(0, 2, 2, 2, 4)
 	}
 	return js
 }
@@ -262,7 +276,7 @@ func init() {
 			if tier == "thorough" {
 				return "16 start sets (empty, hand and generated corpus sets incl. hostnames and the 60-sibling fan-out) x histories of k<=3 writes (Handle, HandleRoute, Update, UpdateRoute, Delete, Truncate(all), Truncate(method)) issued directly or in a committed/aborted transaction, methods {GET,FOO,POST,\"\"}, patterns from an 18-entry pool; plus a first write with a symbolic pattern of 1..5 arbitrary bytes; every reader checked after every step"
 			}
-			return "5 start sets x histories of k<=2 writes (7 kinds) direct / committed txn / aborted txn, methods {GET,FOO}, 8-entry pattern pool (12 for k=1); plus a first write with a symbolic pattern of 1..4 arbitrary bytes (k=1) and 2 bytes (k=2); every reader (Has, Route, Len, Iter.All/Methods/Prefix/Routes) checked after every step"
+			return "6 start sets x histories of k<=2 writes (7 kinds) direct / committed txn / aborted txn, with and without an iterator on the open transaction between the steps, methods {GET,FOO}, 6..8-entry pattern pool (12 for k=1); plus a first write with a symbolic pattern of 1..4 arbitrary bytes (k=1; 1..3 on four of the sets) and 2 bytes (k=2); every reader (Has, Route, Len, Iter.All/Methods/Prefix/Routes) checked after every step"
 		},
 		RequiredCovers: []string{"handle ok", "handle: ErrRouteExist", "handle: ErrRouteConflict", "handle: ErrInvalidRoute", "update ok", "update: ErrRouteNotFound", "delete ok", "delete: ErrRouteNotFound", "truncate all", "truncate method"},
 		Assumptions:    []string{"grammar don't-care regions are skipped (see C10)", "regexp.MatchString on the (concrete) method is executed natively"},
@@ -282,7 +296,7 @@ func init() {
 				if s == 16 {
 					continue // fan-out set: covered by C02/C01 (61 routes x 9 histories is slow to build)
 				}
-				for h := 0; h < 9; h++ {
+				for h := 0; h < 10; h++ {
 					for lh := 0; lh <= maxLh; lh++ {
 						for lp := 1; lp <= maxLp; lp++ {
 							js = append(js, &Job{Harness: "C07Pair", Params: map[string]int{"set": s, "hist": h, "lh": lh, "lp": lp}})
@@ -294,9 +308,9 @@ func init() {
 		},
 		Bounds: func(tier string) string {
 			if tier == "thorough" {
-				return "149 corpus route sets (routes alternately GET/POST) x 9 history shapes (reverse, interleaved, extras inserted+deleted after / before, update in place, delete+reinsert each, truncate+refill in one txn, aborted txn full of writes, delete all + reinsert reversed) x request method in {GET,POST,DELETE,OPTIONS} x every Host of 0..3 bytes x every path of 1..7 bytes; 405 and auto-OPTIONS enabled"
+				return "149 corpus route sets (routes alternately GET/POST) x 10 history shapes (every unregistered route prefix inserted and deleted again, reverse, interleaved, extras inserted+deleted after / before, update in place, delete+reinsert each, truncate+refill in one txn, aborted txn full of writes, delete all + reinsert reversed) x request method in {GET,POST,DELETE,OPTIONS} x every Host of 0..3 bytes x every path of 1..7 bytes; 405 and auto-OPTIONS enabled"
 			}
-			return "39 corpus route sets (routes alternately GET/POST) x 9 history shapes x request method in {GET,POST,DELETE,OPTIONS} x every Host of 0..2 bytes x every path of 1..5 bytes; 405 and auto-OPTIONS enabled"
+			return "39 corpus route sets (routes alternately GET/POST) x 10 history shapes x request method in {GET,POST,DELETE,OPTIONS} x every Host of 0..2 bytes x every path of 1..5 bytes; 405 and auto-OPTIONS enabled"
 		},
 		RequiredCovers: []string{"both matched", "405 compared", "OPTIONS compared"},
 		Assumptions:    []string{"no external oracle: router A (canonical insertion order) versus router B (history); the absolute correctness of A is C01/C08/C11's obligation"},
@@ -335,7 +349,7 @@ func init() {
 			}
 			return "39 corpus route sets (routes spread over GET/POST/FOO/OPTIONS, every third route ignoring trailing slashes) x the 4 combinations of method-not-allowed and auto-OPTIONS x request method in {GET,POST,FOO,OPTIONS,DELETE} x every Host of 0..2 bytes x every path of 1..5 bytes and the target '*'"
 		},
-		RequiredCovers: []string{"404", "405", "OPTIONS", "OPTIONS *", "served by a route"},
+		RequiredCovers: []string{"404", "405", "OPTIONS", "OPTIONS *", "served by a route", "primed with an ignored trailing-slash match"},
 	}
 }
 
@@ -344,7 +358,7 @@ func init() {
 		ID: "C03",
 		Jobs: func(tier string) []*Job {
 			var js []*Job
-			sets := []int{0, 11}
+			sets := []int{0, 11, 17}
 			ks := []int{1}
 			lps := []int{3}
 			pool := 6
@@ -357,11 +371,16 @@ func init() {
 				for snap := 0; snap < 5; snap++ {
 					for _, k := range ks {
 						for _, lp := range lps {
-							js = append(js, &Job{Harness: "C03Snapshot", Params: map[string]int{"set": s, "snap": snap, "k": k, "pool": pool, "lp": lp}})
+							pl := pool
+							if s == 17 && pl < 8 {
+								pl = 8 // includes the siblings that sort before the registered ones
+							}
+							js = append(js, &Job{Harness: "C03Snapshot", Params: map[string]int{"set": s, "snap": snap, "k": k, "pool": pl, "lp": lp}})
 						}
 					}
-					if tier == "thorough" && snap <= 2 {
-						js = append(js, &Job{Harness: "C03Snapshot", Params: map[string]int{"set": s, "snap": snap, "k": 2, "pool": 4, "lp": 3}})
+					if snap <= 2 && (tier == "thorough" || s == 0 || s == 17) {
+						// two later writes in one transaction (exercises the writable-node cache across writes)
+						js = append(js, &Job{Harness: "C03Snapshot", Params: map[string]int{"set": s, "snap": snap, "k": 2, "pool": 4, "lp": 2}})
 					}
 				}
 			}
@@ -371,7 +390,7 @@ func init() {
 			if tier == "thorough" {
 				return "9 start sets x 5 snapshot kinds (Router.Iter, read-only Txn, Txn.Snapshot before/after a write, Txn.Iter after a write) x 1 later write (7 kinds, 8-pattern pool; 2 later writes with a 4-pattern pool for the first three kinds) issued directly / in a new txn / in the same txn, then commit or abort; snapshot re-observed (All, Prefix, Routes, Has, Route, Len, Lookup of every path of 2 and 4 bytes) after every step; frozen-object monitor on everything reachable from the snapshot"
 			}
-			return "2 start sets x 5 snapshot kinds (Router.Iter, read-only Txn, Txn.Snapshot before/after a write, Txn.Iter after a write) x 1 later write (7 kinds, 6-pattern pool) issued directly / in a new txn / in the same txn, then commit or abort; snapshot re-observed (All, Prefix, Routes, Has, Route, Len, Lookup of every 3-byte path) after every step; frozen-object monitor on everything reachable from the snapshot"
+			return "2 start sets x 5 snapshot kinds (Router.Iter, read-only Txn, Txn.Snapshot before/after a write, Txn.Iter after a write) x 1 later write (7 kinds, 6-pattern pool; 2 later writes with a 4-pattern pool for the first three snapshot kinds) issued directly / in a new txn / in the same txn, then commit or abort; snapshot re-observed (All, Prefix, Routes, Has, Route, Len, Lookup of every 3-byte path) after every step; frozen-object monitor on everything reachable from the snapshot"
 		},
 		RequiredCovers: []string{"commit after snapshot", "abort after snapshot", "handle ok", "delete ok", "update ok", "truncate all"},
 		Assumptions: []string{
@@ -384,17 +403,27 @@ func init() {
 		ID: "C04",
 		Jobs: func(tier string) []*Job {
 			var js []*Job
-			sets := []int{-1, 0, 6, 11}
+			sets := []int{-1, 0, 6, 11, 17}
 			if tier == "thorough" {
 				sets = []int{-1, 0, 1, 2, 6, 9, 10, 11, 12, 14, 17, 19}
 			}
 			for _, s := range sets {
-				js = append(js, &Job{Harness: "C04Txn", Params: map[string]int{"set": s, "k": 1, "pool": 12}})
+				js = append(js, &Job{Harness: "C04Txn", Params: map[string]int{"set": s, "k": 1, "pool": 12, "iter": 1}})
 				if tier == "thorough" {
-					js = append(js, &Job{Harness: "C04Txn", Params: map[string]int{"set": s, "k": 2, "pool": 8}})
-					js = append(js, &Job{Harness: "C04Txn", Params: map[string]int{"set": s, "k": 3, "pool": 3}})
+					js = append(js, &Job{Harness: "C04Txn", Params: map[string]int{"set": s, "k": 2, "pool": 8, "iter": 1}})
+					js = append(js, &Job{Harness: "C04Txn", Params: map[string]int{"set": s, "k": 2, "pool": 8, "iter": 0}})
+					js = append(js, &Job{Harness: "C04Txn", Params: map[string]int{"set": s, "k": 3, "pool": 3, "iter": 0}})
 				} else {
-					js = append(js, &Job{Harness: "C04Txn", Params: map[string]int{"set": s, "k": 2, "pool": 5}})
+					if s == 0 {
+						js = append(js, &Job{Harness: "C04Txn", Params: map[string]int{"set": s, "k": 2, "pool": 4, "iter": 1}})
+					}
+					if s == -1 || s == 0 || s == 17 {
+						pl := 4
+						if s == 17 {
+							pl = 8
+						}
+						js = append(js, &Job{Harness: "C04Txn", Params: map[string]int{"set": s, "k": 2, "pool": pl, "iter": 0}})
+					}
 				}
 			}
 			return js
@@ -403,7 +432,7 @@ func init() {
 			if tier == "thorough" {
 				return "12 start sets x transactions of k<=3 writes (7 kinds, methods {GET,FOO}, pattern pool 12/8/3 for k=1/2/3) x 5 endings (Commit, Abort, Updates returning nil, Updates returning an error after j ops, Updates panicking after j ops; j symbolic in 0..k); txn view, router view and a fresh read-only txn compared with the model after every step; settled-txn, double Commit/Abort, new-writer and read-only-writes obligations on every path"
 			}
-			return "4 start sets x transactions of k<=2 writes (7 kinds, methods {GET,FOO}, pattern pool 12/5 for k=1/2) x 5 endings (Commit, Abort, Updates returning nil, Updates returning an error after j ops, Updates panicking after j ops; j symbolic in 0..k); txn view, router view and a fresh read-only txn compared with the model after every step; settled-txn, double Commit/Abort, new-writer and read-only-writes obligations on every path"
+			return "4 start sets x transactions of k<=2 writes (7 kinds, methods {GET,FOO}, pattern pool 12 for k=1, 4..8 for k=2 on three start sets, with and without an iterator on the open transaction between steps) x 5 endings (Commit, Abort, Updates returning nil, Updates returning an error after j ops, Updates panicking after j ops; j symbolic in 0..k); txn view, router view and a fresh read-only txn compared with the model after every step; settled-txn, double Commit/Abort, new-writer and read-only-writes obligations on every path"
 		},
 		RequiredCovers: []string{"explicit commit", "explicit abort", "managed commit", "managed: error returned", "managed: panic", "new write transaction opened"},
 		Assumptions: []string{
@@ -697,14 +726,14 @@ func init() {
 		ID: "C05",
 		Jobs: func(tier string) []*Job {
 			var js []*Job
-			sets := []int{0, 3, 10}
+			sets := []int{0, 3, 10, 17}
 			pre := 2
 			if tier == "thorough" {
 				sets = []int{0, 1, 3, 6, 7, 10, 11, 13, 17, 19, 22}
 				pre = 3
 			}
 			for _, s := range sets {
-				for sc := 0; sc < 6; sc++ {
+				for sc := 0; sc < 7; sc++ {
 					js = append(js, &Job{Harness: "C05Conc", Params: map[string]int{"set": s, "scenario": sc, "preempt": pre}})
 				}
 			}
@@ -719,9 +748,9 @@ func init() {
 			if tier == "thorough" {
 				sets, pre = 11, 3
 			}
-			return fmt.Sprintf("%d start routers x 6 thread programs (Handle||Handle on different routes from a 6-pattern pool; Handle||Handle on the same route; Update||Delete; two-route Updates || reader doing Has,Has,Iter.All,Has; Handle || ServeHTTP || ServeHTTP on routes sharing nodes; aborted write txn || reader) plus ServeHTTP||ServeHTTP with per-request tokens and NewRoute||NewRoute with 0..4 global middleware: every interleaving at synchronisation granularity (mutex Lock, atomic Load/Store, sync.Pool Get/Put, thread start/exit) with at most %d pre-emptive context switches; <= 3 threads besides the joiner; happens-before race monitor on every heap cell", sets, pre)
+			return fmt.Sprintf("%d start routers x 7 thread programs (Handle||Handle on different routes from a 7-pattern pool; Handle||Handle on the same route; Update||Delete; two-route Updates || reader doing Has,Has,Iter.All,Has; Handle || ServeHTTP || ServeHTTP on routes sharing nodes; aborted write txn || reader; Update of a parent + Handle below it + marker in one Updates || reader) plus ServeHTTP||ServeHTTP with per-request tokens and NewRoute||NewRoute with 0..4 global middleware: every interleaving at synchronisation granularity (mutex Lock, atomic Load/Store, sync.Pool Get/Put, thread start/exit) with at most %d pre-emptive context switches; <= 3 threads besides the joiner; happens-before race monitor on every heap cell", sets, pre)
 		},
-		RequiredCovers: []string{"W||W different routes", "W||W same route", "Update||Delete", "txn||reader", "W||R||R", "abort||reader", "concurrent requests", "concurrent NewRoute"},
+		RequiredCovers: []string{"W||W different routes", "W||W same route", "Update||Delete", "txn||reader", "W||R||R", "abort||reader", "update+write-below||reader", "concurrent requests", "concurrent NewRoute"},
 		Assumptions: []string{
 			"threads switch only at synchronisation operations; schedules finer than that are covered by the DRF argument only because the happens-before race monitor is clean on every explored schedule",
 			"pre-emption bound as stated; more threads, more operations per thread and unbounded pre-emption are outside the claim",
